@@ -8,6 +8,7 @@ CONSTANTS Types, MaxOps
 
 VARIABLES slot,      \* [st |-> "missing"] (key never touched) | [st |-> "none"] (touched, empty) |
                      \* [st |-> "yaml", y |-> kind, v |-> value id] | [st |-> "typed", ty |-> T, val |-> v]
+          held,      \* "" or the type T of an upgraded handle (Prop<T, true>) the client still holds; it outlives Clear
           nops, pret
 
 Compatible(y, T) == \/ (y = "num" /\ T \in {"u32", "i64"})
@@ -15,12 +16,12 @@ Compatible(y, T) == \/ (y = "num" /\ T \in {"u32", "i64"})
                     \/ (y = "bool" /\ T = "bool")
 
 TInit == /\ slot \in {[st |-> "missing"], [st |-> "yaml", y |-> "num", v |-> 1], [st |-> "yaml", y |-> "str", v |-> 1], [st |-> "yaml", y |-> "bool", v |-> 1]}
-         /\ nops = 0 /\ pret = [op |-> "init", slot |-> slot]
+         /\ nops = 0 /\ pret = [op |-> "init", slot |-> slot] /\ held = ""
 
 (* ctx.prop::<T>(key): Err on a type mismatch (slot untouched), otherwise a handle; a configuration value *)
 (* is converted on the first typed read and from then on the slot has that type.                          *)
 ReadTyped(T) ==
-  /\ nops < MaxOps /\ nops' = nops + 1
+  /\ nops < MaxOps /\ nops' = nops + 1 /\ UNCHANGED held
   /\ IF slot.st = "typed"
      THEN /\ UNCHANGED slot
           /\ pret' = [op |-> "read", ty |-> T, res |-> IF slot.ty = T THEN "ok" ELSE "err", val |-> IF slot.ty = T THEN slot.val ELSE 0]
@@ -34,7 +35,7 @@ ReadTyped(T) ==
 
 (* prop::<T>(key)?.or(v) then set(w): write through a handle of type T *)
 Write(T, w) ==
-  /\ nops < MaxOps /\ nops' = nops + 1
+  /\ nops < MaxOps /\ nops' = nops + 1 /\ UNCHANGED held
   /\ IF (slot.st = "typed" /\ slot.ty # T) \/ (slot.st = "yaml" /\ ~Compatible(slot.y, T))
      THEN /\ UNCHANGED slot /\ pret' = [op |-> "write", ty |-> T, res |-> "err", val |-> 0]
      ELSE /\ slot' = [st |-> "typed", ty |-> T, val |-> w]
@@ -43,19 +44,42 @@ Write(T, w) ==
 (* a configuration entry for this key arrives later (include_cfg after the module exists): it only *)
 (* fills a slot that was never touched; an existing slot keeps its value and its type             *)
 Reconfig(y) ==
-  /\ nops < MaxOps /\ nops' = nops + 1
+  /\ nops < MaxOps /\ nops' = nops + 1 /\ UNCHANGED held
   /\ slot' = IF slot.st = "missing" THEN [st |-> "yaml", y |-> y, v |-> 4] ELSE slot
   /\ pret' = [op |-> "reconfig", ty |-> y, res |-> "ok", val |-> 0]
 
-Clear == /\ nops < MaxOps /\ nops' = nops + 1
+Clear == /\ nops < MaxOps /\ nops' = nops + 1 /\ UNCHANGED held
          /\ slot' = [st |-> "none"] /\ pret' = [op |-> "clear", ty |-> "", res |-> "ok", val |-> 0]
+
+(* let h = prop::<T>(key)?.or(w): an upgraded handle that the client keeps; `or` only fills an empty slot *)
+Mismatch(T) == (slot.st = "typed" /\ slot.ty # T) \/ (slot.st = "yaml" /\ ~Compatible(slot.y, T))
+Hold(T, w) ==
+  /\ nops < MaxOps /\ nops' = nops + 1 /\ held = ""
+  /\ IF Mismatch(T)
+     THEN /\ UNCHANGED <<slot, held>> /\ pret' = [op |-> "hold", ty |-> T, res |-> "err", val |-> 0]
+     ELSE /\ slot' = IF slot.st = "typed" THEN slot ELSE IF slot.st = "yaml" THEN [st |-> "typed", ty |-> T, val |-> slot.v]
+                     ELSE [st |-> "typed", ty |-> T, val |-> w]
+          /\ held' = T
+          /\ pret' = [op |-> "hold", ty |-> T, res |-> "ok", val |-> slot'.val]
+(* h.set(w) / h.get() through the kept handle: an error (panic) once the slot holds another type, never a silent *)
+(* overwrite or a reinterpretation; an emptied slot may be written (with the handle's type) but not read         *)
+HeldSet(w) ==
+  /\ nops < MaxOps /\ nops' = nops + 1 /\ held # "" /\ UNCHANGED held
+  /\ IF slot.st = "typed" /\ slot.ty # held
+     THEN /\ UNCHANGED slot /\ pret' = [op |-> "held_set", ty |-> held, res |-> "err", val |-> 0]
+     ELSE /\ slot' = [st |-> "typed", ty |-> held, val |-> w] /\ pret' = [op |-> "held_set", ty |-> held, res |-> "ok", val |-> w]
+HeldGet ==
+  /\ nops < MaxOps /\ nops' = nops + 1 /\ held # "" /\ UNCHANGED <<held, slot>>
+  /\ pret' = IF slot.st = "typed" /\ slot.ty = held THEN [op |-> "held_get", ty |-> held, res |-> "ok", val |-> slot.val]
+             ELSE [op |-> "held_get", ty |-> held, res |-> "err", val |-> 0]
 
 TNext == (\E T \in Types : ReadTyped(T)) \/ (\E T \in Types, w \in 2..3 : Write(T, w)) \/ Clear
          \/ (\E y \in {"num", "str"} : Reconfig(y))
-TSpec == TInit /\ [][TNext]_<<slot, nops, pret>>
+         \/ (\E T \in Types : Hold(T, 2)) \/ HeldSet(3) \/ HeldGet
+TSpec == TInit /\ [][TNext]_<<slot, nops, pret, held>>
 
 (* the type of a slot changes only through Clear; a failed access changes nothing *)
-TypeSticky == [][(slot.st = "typed" /\ slot'.st = "typed") => slot'.ty = slot.ty]_<<slot, nops, pret>>
-ErrPure    == [][pret'.res = "err" => slot' = slot]_<<slot, nops, pret>>
-NoReinterpret == [][(pret'.op = "read" /\ pret'.res = "ok" /\ slot.st = "typed") => pret'.ty = slot.ty]_<<slot, nops, pret>>
+TypeSticky == [][(slot.st = "typed" /\ slot'.st = "typed") => slot'.ty = slot.ty]_<<slot, nops, pret, held>>
+ErrPure    == [][pret'.res = "err" => slot' = slot]_<<slot, nops, pret, held>>
+NoReinterpret == [][(pret'.op = "read" /\ pret'.res = "ok" /\ slot.st = "typed") => pret'.ty = slot.ty]_<<slot, nops, pret, held>>
 =============================================================================
